@@ -27,6 +27,8 @@ def concrete_ri(compiled, argv, W, checked=True, max_loop=2000):
     prog = assemble(compiled.lines, conc_argspec(compiled, argv))
     vm = VM(prog)   # only to obtain vm.inputs in the same shape as the symbolic run
     ri = RI(compiled.ast, compiled.env, W, ri_args(compiled, vm.inputs, W), checked=checked, max_loop=max_loop, max_calls=200)
+    from .ri import preemptive_functions
+    ri.preemptive = preemptive_functions(compiled.src)
     res = ri.run_all()
     if len(res) != 1:
         return 'multiple', ()
